@@ -28,12 +28,13 @@ structure DS where
   pre : Mem
   up : Bool
   cutIn : Bool
+  loaded : CMap     -- the time index as loaded at the last start (class of F06)
   everColl : Bool   -- a pipe whose position file is the registry file exists or existed in this history (F33's class)
   slots : List (String × Option Bytes)
 
 def K : Codecs := stdCodecs
 def emptyMem : Mem := ⟨[], [], []⟩
-def DS.init : DS := ⟨⟨emptyMem, Disk.fresh⟩, emptyMem, false, false, false, []⟩
+def DS.init : DS := ⟨⟨emptyMem, Disk.fresh⟩, emptyMem, false, false, [], false, []⟩
 
 def insSorted (x : Bytes) : List Bytes → List Bytes
   | [] => [x]
@@ -108,7 +109,7 @@ def dstep (d : DS) (toks : List String) : DS × String :=
     | .refusedTIndex => (d, s!"refuse:tindex {clsOf d}")
     | .refusedPipes => (d, s!"refuse:pipes {clsOf d}")
     | .started s' =>
-      ({ d with srv := s', up := true, cutIn := false },
+      ({ d with srv := s', up := true, cutIn := false, loaded := s'.mem.cidx },
        s!"ok parts={hexSorted (s'.mem.tmap.map (·.1))} pipes={hexSorted (s'.mem.pipes.map (·.cfg.name))} {clsOf d}")
   | ["part", tg, src] => op (.newPartition (unhex tg) (unhex src))
   | "write" :: src :: pieces => op (.write (unhex src) (parsePieces pieces))
@@ -170,7 +171,7 @@ def dstep (d : DS) (toks : List String) : DS × String :=
     | some l, some h =>
       let cks := (alookup s.disk.db (unhex src)).getD []
       let hs := hullView s.mem.cidx (unhex src) cks
-      (d, s!"vis={intList (rangeVisible hs cks l h)} spec={intList (rangeSpec cks l h)} stale={b2s (staleFor s (unhex src))}")
+      (d, s!"vis={intList (rangeVisible hs cks l h)} spec={intList (rangeSpec cks l h)} stale={b2s (staleSnapshotFor d.loaded s (unhex src))}")
     | _, _ => (d, "bad-op")
   | ["parts"] => (d, hexSorted (s.mem.tmap.map (·.1)))
   | ["pipes"] =>
